@@ -122,8 +122,51 @@ func c02Run(w *W, idx int) {
 		if w.Thorough() {
 			nb = 10
 		}
-		c02Program(w, r, s.Name, tree, genBindings(r, tree, nb, 0), true, true)
+		bs := genBindings(r, tree, nb, 0)
+		if k%3 == 0 {
+			// ill-typed bindings: boolean variables bound to something that is not a boolean (nil from a lookup that found
+			// nothing, a number, a string). Most configurations then fail; those that return a value must still agree.
+			var bools []string
+			tree.Walk(func(n *Node) {
+				if n.Kind == KVar && n.Ty == TBool {
+					bools = append(bools, n.Name)
+				}
+			})
+			if len(bools) > 0 {
+				for j := 0; j < 2; j++ {
+					b := Binding{Vals: map[string]interface{}{}}
+					for kk, v := range bs[r.Intn(len(bs))].Vals {
+						b.Vals[kk] = v
+					}
+					for c := 0; c <= r.Intn(2); c++ {
+						b.Vals[bools[r.Intn(len(bools))]] = []interface{}{nil, int64(5), int64(0), "s", []int64{1}}[r.Intn(5)]
+					}
+					b.Vals[c02IllTypedKey] = true
+					bs = append(bs, b)
+					w.Inc("ill_typed_bindings")
+				}
+			}
+		}
+		c02Program(w, r, s.Name, tree, bs, true, true)
 	}
+}
+
+// c02IllTypedKey marks a binding that binds a boolean variable to a non-boolean value (stored in the binding itself,
+// under a name no expression uses)
+const c02IllTypedKey = "(ill-typed binding)"
+
+// c02FastAndOrFinding: is this failure of a FastEvaluation configuration, under an ill-typed binding, the open finding
+// "an inlined two-leaf and/or applies its operator to both leaves although the first one decides"? Yes exactly when the
+// reference, run on the optimized tree with that one rule added, fails at such a node - and nothing else explains it.
+func c02FastAndOrFinding(v *Variant, b Binding, o Outcome) bool {
+	if b.Vals[c02IllTypedKey] == nil || v.Cfg.EffectiveOpts()&OptFE == 0 || o.Err == nil || o.Panic != nil || v.DumpTree == nil {
+		return false
+	}
+	env := refEnv(b)
+	env.FastStrict = true
+	_, err := env.Eval(v.DumpTree)
+	be, ok := err.(*BuiltinErr)
+	return ok && strings.HasPrefix(be.Why, "non-bool operand of an inlined two-leaf")
 }
 
 func c02Program(w *W, r *rand.Rand, stratum string, tree *Node, bs []Binding, directives, costs bool) {
@@ -218,6 +261,12 @@ func c02Program(w *W, r *rand.Rand, stratum string, tree *Node, bs []Binding, di
 				} else if !valEq(firstVal.V, o.V) {
 					w.Fail("configs-disagree/"+stratum, "two configurations return different values\n%s -> %s\n%s -> %s\nsource: %s\nbinding: %s\ndump A: %s\ndump B: %s",
 						firstV.Cfg, valText(firstVal.V), v.Cfg, valText(o.V), src, b, oneLine(firstV.Dump), oneLine(v.Dump))
+				}
+			}
+			if (serr == nil || (v.Cfg.Opts&OptRO == 0 && wantErr == nil)) && c02FastAndOrFinding(v, b, o) {
+				{
+					w.Fail("ill-typed-leaf/fast-two-leaf-andor-applies-operator-although-decided", "plain left-to-right evaluation gives %s, this FastEvaluation configuration gives %s: an inlined two-leaf and/or applies its operator to both leaves, so an ill-typed second leaf fails although the first leaf decides\n%s\ndump: %s", valText(want), o, describeCase(v.Src, v.Cfg, b), oneLine(v.Dump))
+					continue
 				}
 			}
 			if serr == nil {
